@@ -21,7 +21,7 @@ def id_consumers_ok(d, nodes):
     for n in nodes:
         nd = d["nodes"][n]
         used = [a for a in nd["args"] if a in idn]
-        if used and nd["kind"]["k"] == "rule":
+        if used and nd["kind"]["k"] in ("rule", "join"):
             out.append((n, used))
     return out
 
